@@ -78,6 +78,11 @@ func runSchedJob(c *Ctl, job *Job, idx int, res *RunResult) {
 		case 5:
 			shape = "wide-nested"
 			prof.PreemptPct, prof.PreemptDepth = 40, 12 // several nested loops: hold some in the middle of a pass
+		case 3:
+			// plain worlds: no conditions, no nesting - one polling loop, whose passes can then be
+			// suspended between two statements of a visit deterministically
+			gen.CondProb, gen.NestProb = 0, 0
+			shape = "plain"
 		case 11:
 			// one pipeline nested by two stages, failures inside it likely: the second nesting stage
 			// often starts when the nested pipeline has already been run by the first
@@ -90,6 +95,11 @@ func runSchedJob(c *Ctl, job *Job, idx int, res *RunResult) {
 		// of its next statements while scheduling passes go on (e.g. between its two status stores)
 		prof.PreemptPct, prof.PreemptDepth = 25, 12
 		prof.WMidpass = 9 // more passes suspended in the middle (and a few statements into a visit)
+	}
+	if shape == "plain" {
+		prof.PreemptPct, prof.PreemptDepth = 40, 12
+		prof.WMidpass = 12
+		c.Count("plain_single_loop_worlds")
 	}
 	if world >= len(dagShapes)*2 && world%16 == 11 {
 		// one pipeline scheduled by two loops: what one loop sees of a stage that is just finishing
